@@ -67,6 +67,16 @@ Definition dec_resp (l : list sexp) : option (option response) :=
 Definition resp_eqb (a b : response) : bool :=
   Bool.eqb (has_data a) (has_data b) && Bool.eqb (data_null a) (data_null b) && Nat.eqb (nerrors a) (nerrors b).
 
+(** the stage verdicts come from a second run of the stages: a rejected document is rejected in
+    both runs, but the NUMBER of validation errors is not a function of the document (it depends on
+    the order in which Go ranges over the validator's maps: C04, "order-sensitive"); for a
+    validation rejection only "no data, at least one error" is compared *)
+Definition resp_agree (validation_rejected : bool) (a b : response) : bool :=
+  if validation_rejected then
+    Bool.eqb (has_data a) (has_data b) && Bool.eqb (data_null a) (data_null b)
+    && negb (Nat.eqb (nerrors a) 0) && negb (Nat.eqb (nerrors b) 0)
+  else resp_eqb a b.
+
 Definition of_outcome (o : outcome) : sexp :=
   match o with
   | Crash => tag "crash" []
@@ -111,7 +121,7 @@ Definition judge_glue (stream api : string) (st : list sexp) (robs : option resp
                    end in
           match predicted, robs with
           | Resp r1, Some r2 =>
-              if resp_eqb r1 r2 then
+              if resp_agree (match p', v' with Returned O, Returned (S _) => true | _, _ => false end) r1 r2 then
                 v_ok ([stream; api] ++
                       (if has_data r2 then ["executed"; "nontrivial"] else
                          match p' with Returned O => ["validation-rejected"; "nontrivial"] | _ => ["syntax-rejected"] end))
@@ -121,7 +131,7 @@ Definition judge_glue (stream api : string) (st : list sexp) (robs : option resp
     | _, _, _, _ => v_bad "stages"
     end.
 
-Definition check (c : sexp) : sexp :=
+Definition check_glue (c : sexp) : sexp :=
   match tagged "case" c with
   | None => v_bad "shape"
   | Some l =>
@@ -137,6 +147,10 @@ Definition check (c : sexp) : sexp :=
           | Some robs =>
               let bad := match robs with Some r => negb (data_or_errors r) | None => false end in
               if bad then v_oracle_fail "nodata-noerrors" []
+              else if match field1 "expect" l with Some x => is_sym "refused" x | None => false end
+                      && match dec_count "parse" st with Some (Some (Returned O)) => true | _ => false end
+              then (* generator intent: nested far beyond the parser's recursion limit *)
+                v_oracle_fail "too-deep-document-not-refused" []
               else judge_glue stream api st robs
           end
       | _, _, _, _ => v_bad "fields"
